@@ -18,7 +18,7 @@ def commands : List (String × P String) :=
   [("c01", c01), ("c01spec", c01spec), ("c10interplike", c10interplike),
    ("c02ctor", c02ctor), ("c02ctorspec", c02ctorspec), ("c02pad", c02pad), ("c02padspec", c02padspec),
    ("c09", c09), ("c09spec", c09spec),
-   ("sigparse", sigparse), ("sighints", sighints), ("sigequiv", sigequiv), ("c17", c17), ("c05", c05), ("c03op", c03op), ("c07", c07), ("c08", c08), ("c16", c16), ("c10", c10), ("c10arith", c10arith), ("c11", c11), ("c14comodo", c14comodo), ("c14sgrid", c14sgrid), ("c19", c19), ("c06merge", c06merge), ("c06mode", c06mode)]
+   ("sigparse", sigparse), ("sighints", sighints), ("sigequiv", sigequiv), ("c17", c17), ("c05", c05), ("c03op", c03op), ("c07", c07), ("c08", c08), ("c08names", c08names), ("c16", c16), ("c10", c10), ("c10arith", c10arith), ("c11", c11), ("c14comodo", c14comodo), ("c14sgrid", c14sgrid), ("c19", c19), ("c06merge", c06merge), ("c06mode", c06mode)]
 
 def handle (line : String) : String :=
   let toks := (line.splitOn " ").filter (· ≠ "")
